@@ -504,6 +504,45 @@ pub fn heading_levels(src: &str) -> Vec<(u8, String, usize)> {
     out
 }
 
+/// R2: heading levels per container instance (the document, every block quote, every list item),
+/// in the order in which the containers open; a heading that is the first block of a list item is
+/// that item's text and not part of its outline. Containers without headings are left out.
+pub fn container_levels(src: &str) -> Vec<Vec<u8>> {
+    let mut seqs: Vec<Vec<u8>> = vec![vec![]];
+    let mut stack: Vec<usize> = vec![0];
+    let mut item_fresh = false;
+    for ev in Parser::new_ext(src, md_options()) {
+        let fresh = item_fresh;
+        item_fresh = false;
+        match ev {
+            Event::Start(Tag::Item) => {
+                seqs.push(vec![]);
+                stack.push(seqs.len() - 1);
+                item_fresh = true;
+            }
+            Event::Start(Tag::BlockQuote(_)) => {
+                seqs.push(vec![]);
+                stack.push(seqs.len() - 1);
+            }
+            Event::End(TagEnd::BlockQuote(_)) | Event::End(TagEnd::Item) => {
+                stack.pop();
+            }
+            Event::Start(Tag::Heading { level, .. }) => {
+                if !fresh {
+                    seqs[*stack.last().unwrap()].push(level as u8);
+                }
+            }
+            // HTML blocks are not part of a note's content (dropped by the reader)
+            Event::Start(Tag::HtmlBlock) | Event::End(TagEnd::HtmlBlock) | Event::Html(_) => item_fresh = fresh,
+            _ => {}
+        }
+    }
+    let doc = seqs[0].clone();
+    let mut out = vec![doc];
+    out.extend(seqs.into_iter().skip(1).filter(|s| !s.is_empty()));
+    out
+}
+
 pub fn outline(bs: &[B]) -> Outline {
     fn kind(b: &B) -> &'static str {
         match b {
